@@ -26,7 +26,8 @@ from . import core
 QUICK = ["q_1d", "q_1do", "q_2d", "q_2dpp"]
 THOROUGH = QUICK + ["t_2d2", "t_2dpp", "t_3d", "t_1d3"]
 H = 0.25  # physical size of one lattice unit
-LEVELS = [(0.0, 1.0), (-1.0, 1.0), (2.0, 5.0), (-0.25, 0.125), (1.0, 0.0)]
+# the last three are not dyadic: vmin + (vmax - vmin) is then rounded (F22)
+LEVELS = [(0.0, 1.0), (-1.0, 1.0), (2.0, 5.0), (-0.25, 0.125), (1.0, 0.0), (-0.1, 0.3), (0.2, -0.1), (-0.3, 0.1)]
 
 
 def cfg_params(name):
@@ -56,12 +57,16 @@ def _check_field(data, q, r2, vmin, vmax, sharp, fails, tag):
     if not np.all(np.isfinite(data)):
         fails.append(f"{tag}: non-finite value")
         return
-    if data.min() < lo - 1e-12 or data.max() > hi + 1e-12:
+    if data.min() < lo or data.max() > hi:
         fails.append(f"{tag}: value outside [vmin, vmax]")
     inside = q < r2
     mid = (vmin + vmax) / 2
     above = (data > mid) if vmax > vmin else (data < mid)
-    if not np.array_equal(above, inside):
+    # a centre exactly ON the interface renders the midpoint itself; with levels that are not dyadic the scaled value and
+    # (vmin + vmax) / 2 are two differently rounded numbers, so that cell is a knife-edge and is not judged
+    dyadic = all(float(x * 8).is_integer() for x in (vmin, vmax))
+    judged = np.ones(q.shape, bool) if dyadic or sharp else (q != r2)
+    if not np.array_equal(above[judged], inside[judged]):
         fails.append(f"{tag}: cells beyond the midpoint differ from the cells inside the interface")
     if sharp:
         if not np.array_equal(data, np.where(inside, vmax, vmin)):
@@ -221,7 +226,7 @@ def _oracle_cases(seed, count):
     for k in range(count):
         kind = ["p2", "p3", "pa_cyl", "pa_c3", "polar", "sph", "cyl", "p2", "p3"][k % 9]
         w = [None, 0.0, float(rng.uniform(0.3, 1.5))][int(rng.integers(0, 3))]
-        vmin, vmax = LEVELS[int(rng.integers(0, 4))]
+        vmin, vmax = LEVELS[[0, 1, 2, 3, 5, 7][int(rng.integers(0, 6))]]
         on_centre = rng.random() < 0.4
         if kind == "p2":
             grid = CartesianGrid([[-1, 7], [0, 6]], [16, 12], periodic=[bool(rng.integers(0, 2)), bool(rng.integers(0, 2))])
@@ -286,7 +291,7 @@ def _oracle_cases(seed, count):
                 fails.append("non-finite value")
             else:
                 lo, hi = min(vmin, vmax), max(vmin, vmax)
-                if data.min() < lo - 1e-12 or data.max() > hi + 1e-12:
+                if data.min() < lo or data.max() > hi:
                     fails.append("value outside [vmin, vmax]")
                 mid = (vmin + vmax) / 2
                 above = data > mid
